@@ -42,6 +42,9 @@ def cases(tier, seed):
                 fv.update(dev)
                 fv["T"] = T
                 out.append({"id": f"{bname}-T{T}-n{n}", "fv": fv, "n": n, "subsets": "all", "seed": seed, "dev": 0})
+    # odd variable names (first characters drawn from "next_"; a state literally called `value`)
+    out.append({"id": "odd-state_names_start_with_next_letters", "odd": "state_names_start_with_next_letters", "fv": dict(family.BASE), "n": 3, "subsets": "few", "seed": seed, "dev": 1})
+    out.append({"id": "odd-state_named_value", "odd": "state_named_value", "fv": dict(family.BASE), "n": 3, "subsets": "few", "seed": seed, "dev": 1})
     # non-broadcast-safe auxiliary function as target: the target columns must still be row-wise correct
     out.append({"id": "fam-B0+aux=reduce", "fv": dict(family.BASE, aux="reduce"), "n": 3, "subsets": "few", "seed": seed, "dev": 1, "skip_chain": True})
     members = e1.family_members(1 if tier == "quick" else 2)[0]
@@ -74,7 +77,12 @@ def run_case(case):
     import jax.numpy as jnp
     from lcm.entry_point import get_lcm_function
 
-    b = e1.Built(case["fv"], case["seed"])
+    if case.get("odd"):
+        from mc.checks.c03 import _Odd
+
+        b = _Odd(case["odd"], 3)
+    else:
+        b = e1.Built(case["fv"], case["seed"])
     if not b.valid:
         return outcome(status="skipped", skip_reason="invalid-combo", nontrivial=False)
     params = b.params("default")
